@@ -82,6 +82,15 @@ var linkRows = []linkRow{
 		"b":    "import { fa } from a;\nlet v = 2;\npub fn fb() -> int { v + fa() - 1 }\nfn main() {}\n",
 		"c":    "import { fa } from a;\nimport { fb } from b;\nimport { fz } from z;\nlet v = 3;\npub fn fc() -> int { v + fa() + fb() + fz() - 12 }\nfn main() {}\n",
 		"z":    "let v = 9;\npub fn fz() -> int { v }\nfn main() {}\n"}},
+	// a module that is entered a second time (from another module) while a call into it is still running
+	{name: "module-re-entered-through-a-callback-chain", want: "210\n1 10\n", mods: map[string]string{
+		"main": "import { f, ax } from a;\nimport { k } from b;\nlet x = 1;\nfn h() -> int { k() }\nfn main() { println(f(h)); println(x, ax()); }\n",
+		"a":    "import { g } from b;\nlet x = 10;\npub fn f(cb: fn() -> int) -> int { let r = g(cb); x + r }\npub fn ax() -> int { x }\nfn main() {}\n",
+		"b":    "let x = 100;\npub fn g(cb: fn() -> int) -> int { cb() + x }\npub fn k() -> int { x }\nfn main() {}\n"}},
+	{name: "module-re-entered-twice", want: "1231\n", mods: map[string]string{
+		"main": "import { f } from a;\nimport { k } from b;\nlet x = 1;\nfn h() -> int { k() + x }\nfn main() { println(f(h)); }\n",
+		"a":    "import { g } from b;\nlet x = 10;\npub fn f(cb: fn() -> int) -> int { let r = g(cb); let s = g(cb); x + r + s * 10 - x * 0 }\nfn main() {}\n",
+		"b":    "let x = 100;\npub fn g(cb: fn() -> int) -> int { cb() + x - 90 }\npub fn k() -> int { x }\nfn main() {}\n"}},
 	{name: "closure-callback-calls-back-into-the-library", want: "100 1\n", mods: map[string]string{
 		"main": "import { run, get, bump } from b;\nlet counter = 100;\nfn main() { let cb = fn() { bump(); }; run(cb); println(counter, get()); }\n",
 		"b":    "let counter = 0;\npub fn bump() { counter += 1; }\npub fn run(cb: fn() -> null) { cb(); }\npub fn get() -> int { counter }\nfn main() {}\n"}},
